@@ -127,11 +127,6 @@ def check_case_fresh(pts, t, off):
             return "line: a point %r away from the carrier (> 1e-6 * length) does not yield -1" % off
         return None
     if n == 3:
-        # t at least 1e-3 away from stationary parameters
-        for k in (0, 1):
-            for r_, _ in oc.deriv_roots([p[k] for p in pts])[0]:
-                if abs(r_ - F(t)) < F(1, 10 ** 7):
-                    return "skip"
         xs = [p[0] for p in pts]
         ys = [p[1] for p in pts]
         r = seg.tOfPoint(q)
